@@ -123,7 +123,9 @@ Definition check_C16 (t : list Z) (pos : Z) (data : list (list (list Z))) (w : Z
       let lines := table_expected data ws W o in
       (* rectangular, of the expected width *)
       forallb (fun l => glen l =? W) lines
-      && inserted_ok t pos (encode (join (decode (o_linesep o)) lines) ++ (if o_notrailing o then [] else o_linesep o)) out
+      (* a table whose joined text is empty (a single line of width 0) inserts nothing, not even the trailing separator *)
+      && (let body := encode (join (decode (o_linesep o)) lines) in
+          inserted_ok t pos (match body with [] => [] | _ => body ++ (if o_notrailing o then [] else o_linesep o) end) out)
   end.
 
 End Blocks.
